@@ -487,7 +487,7 @@ def correspondence(ctx, name, impl_cmd, model_cmd, cases, nontrivial=None, keep_
     for (i, k, la, lb) in diffs:
         kid = classify(cases[i], impl.get(i), model.get(i)) if classify else None
         if kid:
-            ctx.known_finding(kid[0], kid[1]); continue
+            ctx.known_finding(kid[0], kid[1]); st['known_diffs'] = st.get('known_diffs', 0) + 1; continue
         if oracle and i not in oracle_fail:
             unconfirmed.append((i, k, la, lb)); continue
         if reported < max_report:
@@ -543,7 +543,8 @@ def finish(ctx, assumptions=(), extra_trusted=()):
     n_thm = len(lean['theorems'])
     thm_failed = len([f for f in lean['failed'] if f.startswith('theorem ')])
     other_failed = [f for f in lean['failed'] if not f.startswith('theorem ')]
-    streams_ok = len([s for s in ctx.streams if s['diffs'] == 0 and s['model_crashes'] == 0])
+    # a divergence attributed to a listed known finding (exact witness or its classifier) does not leave the stream undischarged
+    streams_ok = len([s for s in ctx.streams if s['diffs'] - s.get('known_diffs', 0) == 0 and s['model_crashes'] == 0])
     obligations = n_thm + len(ctx.streams)
     discharged = (n_thm - thm_failed if not other_failed else 0) + streams_ok
     if not lean.get('ok', False):
